@@ -321,8 +321,22 @@ def discharge(ctx, body, p, ev, kind):
             return "G7-nonzero-constant-size" if k is not None and k > 0 else None
         if last == "split_off":
             v, at = strip_refs(ev.args[0]), strip_refs(ev.args[1])
-            if is_call(at, "::len") and mentions(call_args(at)[0], lambda s: is_index_call(s) and mentions(call_args(s)[0], lambda u: u == v or (u[0] == "field" and v[0] == "field" and u[3] == v[3]))):
-                return "G6-length-of-a-prefix-of-the-same-vector"
+            if is_call(at, "::len"):
+                # the length of a prefix &v[..k] of the same vector, seen through length-preserving views only: a validated str view of
+                # the same bytes (from_utf8(..) Ok payload) has the same length; a converted copy (from_utf8_lossy, to_lowercase ..) has not
+                x = strip_refs(call_args(at)[0])
+                for _ in range(8):
+                    if isinstance(x, tuple) and x and x[0] == "field" and x[2] == 0 and isinstance(x[1], tuple) and x[1][0] == "downcast" and x[1][2] in ("Ok", "Continue"):
+                        x = strip_refs(x[1][1])
+                    elif is_call(x, "Try>::branch", "str::from_utf8", "core::str::from_utf8", "::as_str", "::as_bytes", "AsRef", "Deref>::deref", "::as_ref") and call_args(x) \
+                            and not is_call(x, "from_utf8_lossy"):
+                        x = strip_refs(call_args(x)[0])
+                    elif isinstance(x, tuple) and x and x[0] == "deref":
+                        x = strip_refs(x[1])
+                    else:
+                        break
+                if is_index_call(x) and mentions(call_args(x)[0], lambda u: u == v or (u[0] == "field" and v[0] == "field" and u[3] == v[3])):
+                    return "G6-length-of-a-prefix-of-the-same-vector"
             return None
     return None
 
